@@ -21,6 +21,14 @@ SEEDS = {
     "C04-global-dropna-instead-of-per-feature": ("C04", "BaseDiscretizer.transform (reinstating NaN)", "object with dropna=False, then update_discretizer(feature, 'group', nan, kept) which sets the per-feature flag, then transform (also after reload)", "C04 quick, oracle closed_label_set / transform_equals_model after an edit", "caught"),
     "C05-default-replaced-features-skip-nan-check": ("C05", "BaseDiscretizer._check_new_values", "a qualitative feature with a default group and no missing value at fit, and ONE frame holding both a never-seen category and a missing value in that column", "C05 quick, oracle must_reject", "caught"),
     "C05-sorted-unexpected-values-typeerror": ("C05", "BaseDiscretizer._check_new_values (assertion message)", "feature without default group receiving two unexpected values of different types (an unseen numeric code and a missing value)", "C05 quick, oracle no_other_exception", "caught"),
+    "C13-copy-takes-order-from-content-dict": ("C13", "GroupedList.__init__ (copy branch)", "replace_group_leader on a group that is not last (content dict order then differs from the list order), followed by GroupedList(gl)", "C13 quick, oracle model_leaders on aliased copies", "caught"),
+    "C13-sort-drops-numpy-int-leaders": ("C13", "GroupedList.sort", "all non-string leaders are ints, a first sort() (leaders become numpy.int64), then a second sort()", "C13 quick, oracle model_leaders", "caught"),
+    "C06-fit-resets-features-dropna": ("C06", "BaseDiscretizer.fit (cooperating with load_discretizer calling fit())", "dropna=False, missing values grouped by update_discretizer, JSON save/reload, then a frame with NaN", "C06 quick, oracles same_json_again / same_output_after_reload", "caught"),
+    "C06-summary-lists-python-ints-after-reload": ("C06", "BaseDiscretizer.summary", "a qualitative feature whose numeric categories live in an int64 column (numpy.int64 at fit, python int after the JSON round trip), then summary() of the reloaded object", "C06 quick, oracle same_summary_after_reload", "MISSED at first: the world generator only produced object-dtype columns for numeric categories; native int64/float64 qualitative columns were added and the change is caught"),
+    "C07-default-replacement-applied-to-every-column": ("C07", "BaseDiscretizer._check_new_values", "a frame holding a value unseen for a qualitative feature with a default group, the same literal value also occurring in another column of the frame", "C07 quick, oracle non_feature_columns_unchanged / row_wise_purity", "caught"),
+    "C07-pooled-transform-unordered-and-positional": ("C07", "BaseDiscretizer._transform_quantitative (two cooperating sites)", "n_jobs>1, at least two quantitative features, worker completion order different from submission order", "C07 quick, oracles row_wise_purity / repeatable_transform (SimPool completion order)", "caught"),
+    "C10-unknown-values-replaced-across-columns": ("C10", "BaseDiscretizer._check_new_values", "a modality unseen for feature A (with default group) that is a known modality of feature B fitted alongside, in the same frame", "C10 quick, oracles same_output / same_rejection (subset vs all features)", "MISSED at first: injected unseen categories were novel tokens known to no feature; 'borrowed_category' injections (a value another qualitative feature knows) were added and the change is caught"),
+    "C10-nan-unique-through-set": ("C10", "base_discretizers.nan_unique", "a numeric-valued ordinal feature whose ranking lacks several observed values (appended in set-iteration order): depends on PYTHONHASHSEED", "C10 quick, oracle values_orders (SimSet order inside the worker body)", "MISSED at first for two reasons: no numeric-valued ordinal features with incomplete rankings were generated, and SimSet decisions were switched off inside SimPool task bodies; both corrected and the change is caught"),
     "C07-nan-rows-by-label-used-as-positions": ("C07", "transform_quantitative_feature", "NaN in a quantitative feature at transform time and an index that is not 0..n-1 in order (subset, permutation, relabelled or string index)", "C07 quick, oracles row_wise_purity / transform_raised", "caught"),
 }
 
